@@ -48,6 +48,7 @@ _patch_pm()
 S = ps.ProcessState
 KILL_MSG = 'cmdkill'
 LOADER_PREFIX = 'X|'
+CODEC_MARK = '__enc__'        # key added by the codec of half of the generated classes; not part of the bundle's canonical rendering
 
 
 class StepError(Exception):
@@ -181,6 +182,23 @@ def build_proc(prog):
         self._trace = []            # the trace of *this instance*: deliberately not persisted
         plumpy.Process.load_instance_state(self, saved_state, load_context)
     ns['load_instance_state'] = load_instance_state
+    if len(prog['fns']) % 2 == 0:
+        # half of the classes override the protected codec hooks with a REAL codec (what is stored is not what is held): inputs,
+        # raw inputs and outputs must all go through encode on save and decode on load
+        def encode_input_args(self, inputs):
+            enc_ = copy.deepcopy(inputs)
+            if isinstance(enc_, plumpy.utils.AttributesFrozendict):
+                enc_ = plumpy.utils.AttributesFrozendict({**enc_, CODEC_MARK: 1})
+            else:
+                enc_ = {**enc_, CODEC_MARK: 1}
+            return enc_                    # (same shape plus a mark: what is stored is not what is held)
+
+        def decode_input_args(self, encoded):
+            dec = dict(copy.deepcopy(encoded))
+            del dec[CODEC_MARK]            # KeyError for anything that was stored without encode
+            return plumpy.utils.AttributesFrozendict(dec) if isinstance(encoded, plumpy.utils.AttributesFrozendict) else dec
+        ns['encode_input_args'] = encode_input_args
+        ns['decode_input_args'] = decode_input_args
     klass = type('GenP', (plumpy.Process,), ns)
     _CACHE[key] = _register(klass, key)
     return klass
@@ -349,6 +367,8 @@ def enc(v):
 def _enc_map(tag, d):
     items = []
     for k in d:
+        if k == CODEC_MARK:
+            continue
         kk = enc(k) if isinstance(k, (asyncio.Future, plumpy.Process)) else q(k)
         vv = enc(d[k])
         if kk == 'L' or vv == 'L':
@@ -437,6 +457,8 @@ def flat_bundle(b, pre=(), top=True):
     the traceback text of an EXCEPTED state is dropped (property: up to the traceback), `ex_value` is decoded from YAML"""
     out = []
     for k, v in b.items():
+        if k == CODEC_MARK:
+            continue
         path = pre + (k,)
         ps_ = '/'.join(path)
         rel = path[-2:] if len(path) >= 2 and path[-2] == META else path[-1:]
